@@ -378,3 +378,71 @@ func isParamDeep(v ssa.Value, fr *fw.Frame, fn *ssa.Function, idx int) bool {
 func deepCallsTo(fn *ssa.Function, match func(string) bool) []fw.DeepCall {
 	return fw.DeepCalls(fn, match, stopExported)
 }
+
+// deepStore is a store to a struct field found in a function's region.
+type deepStore struct {
+	St *ssa.Store
+	Fr *fw.Frame
+}
+
+// deepFieldStores lists the stores to field `field` of a struct whose type name ends in
+// structSuffix, in fn and the unexported helpers it calls (with frames).
+func deepFieldStores(fn *ssa.Function, structSuffix, field string) []deepStore {
+	var out []deepStore
+	for _, di := range fw.DeepInstrs(fn, nil) {
+		st, ok := di.Instr.(*ssa.Store)
+		if !ok {
+			continue
+		}
+		fa, ok := st.Addr.(*ssa.FieldAddr)
+		if !ok {
+			continue
+		}
+		sty := derefStructOf(fa.X.Type())
+		if sty == nil || sty.Field(fa.Field).Name() != field {
+			continue
+		}
+		if !strings.HasSuffix(fw.Short(strings.TrimPrefix(fa.X.Type().String(), "*")), structSuffix) {
+			continue
+		}
+		out = append(out, deepStore{st, di.Fr})
+	}
+	return out
+}
+
+// triBest folds several three-valued answers for "one of these satisfies the rule":
+// Yes if any is Yes, else Unknown if any is Unknown (or there is none), else No.
+func triBest(ts []fw.Tri) fw.Tri {
+	if len(ts) == 0 {
+		return fw.Unknown
+	}
+	res := fw.No
+	for _, t := range ts {
+		if t == fw.Yes {
+			return fw.Yes
+		}
+		if t == fw.Unknown {
+			res = fw.Unknown
+		}
+	}
+	return res
+}
+
+// checkTri records a three-valued obligation.
+func checkTri(c *fw.Ctx, t fw.Tri, rule, construct, pos, okDetail, failDetail string) {
+	switch t {
+	case fw.Yes:
+		c.Ok(rule, construct, pos, okDetail)
+	case fw.No:
+		c.Fail(rule, construct, pos, failDetail)
+	default:
+		c.Undecided(rule, construct, "not resolved: "+failDetail)
+	}
+}
+
+// isRootParam builds a source predicate (with frames): the value is parameter #idx of root.
+func isRootParam(root *ssa.Function, idx int) func(ssa.Value, *fw.Frame) bool {
+	return func(v ssa.Value, fr *fw.Frame) bool {
+		return fr == nil && isParam(v, root, idx)
+	}
+}
